@@ -137,7 +137,9 @@ func c08CloseD(x *explore.Ctx, readerIsServer, allCodes, deflate bool) {
 	// prefix
 	npings := x.Choose(3, "pings-before")
 	for i := 0; i < npings; i++ {
-		ping(Pattern(3, []int{0, 125, 1}[x.Choose(3, fmt.Sprintf("ping%d-len", i))]))
+		// (payloads of consecutive pings differ in every byte: a reply built from the previous
+		// ping's bytes must not go unnoticed)
+		ping(Pattern(i%2*2, []int{0, 125, 1, 124}[x.Choose(4, fmt.Sprintf("ping%d-len", i))]))
 	}
 	inFrag := false
 	switch x.Choose(4, "data") {
